@@ -166,7 +166,8 @@ func mainSched() {
 	if nshard < 1 {
 		nshard = 1
 	}
-	R.Config(fmt.Sprintf("cooperative scheduler on instrumented code (%d sites)", secp256k1.VerifRTNumIDs()))
+	purego := strings.HasSuffix(os.Getenv("VERIF_RUN"), "purego")
+	R.Config(fmt.Sprintf("%s: cooperative scheduler on instrumented code (%d sites)", os.Getenv("VERIF_RUN"), secp256k1.VerifRTNumIDs()))
 	R.Bound("shards", nshard)
 	th := R.Thorough()
 	var light, heavy []string
@@ -180,6 +181,19 @@ func mainSched() {
 	}
 	R.Bound("light_operations", light)
 	R.Bound("heavy_operations", heavy)
+	if purego {
+		// the pure-Go build differs from the default one only in the table lookups: explore the tuples that use them
+		for _, p := range [][]string{{"Point.ScalarBaseMult(S1)", "Point.ScalarBaseMult(S1)"}, {"Point.ScalarMult(S1,P1)", "Point.ScalarMult(S1,P1)"},
+			{"Point.ScalarBaseMult(S1)", "Point.ScalarMult(S1,P1)"}, {"Point.MultiScalarMult([S1,S2],[P1,P2])", "Point.ScalarBaseMult(S1)"},
+			{"K.Sign(RFC 6979 selector)", "K.ECDH(peerQ)"}, {"Point.Add(P1,P2)", "Point.ScalarBaseMult(S1)"}} {
+			if !th && !(p[0] == "Point.ScalarBaseMult(S1)" && p[1] != "Point.ScalarMult(S1,P1)" || p[0] == "Point.Add(P1,P2)") {
+				continue // quick: the fixed-base lookups; thorough: every listed tuple
+			}
+			explorePair(p, 1, shard, nshard, 200000)
+		}
+		R.Bound("preemption_bound (purego run)", "1, lookup-using tuples only")
+		return
+	}
 	// light x light (incl. self pairs): bound 1 everywhere, bound 2 on the lightest
 	for i := range light {
 		for j := i; j < len(light); j++ {
@@ -214,7 +228,7 @@ func mainSched() {
 		hps = append(hps, hp{"K.Sign(hedged, per-call reader)", "Q.Verify(sigDER)"}, hp{"Point.ScalarBaseMult(S1)", "K.Sign(RFC 6979 selector)"},
 			hp{"K.Sign(recoverable, SelfVerify)", "RecoverPublicKey"}, hp{"SK.Sign(Schnorr, per-call reader)", "SPK.Verify(Schnorr)"},
 			hp{"Point.MultiScalarMult([S1,S2],[P1,P2])", "Point.DoubleScalarMultBasepointVartime(S1,S2,P2)"}, hp{"NewPrivateKey(bytes) (fresh object, shared tables)", "K.ECDH(peerQ)"},
-			hp{"Point.Add(P1,P2)", "K.Sign(hedged, per-call reader)"}, hp{"key accessors (Q.Bytes/CompressedBytes/Point, K.Bytes/Scalar, SPK.Bytes)", "Q.Verify(recoverable)"})
+			hp{"h2c RO(oversize DST A)", "h2c NU(oversize DST B)"}, hp{"Point.Add(P1,P2)", "K.Sign(hedged, per-call reader)"}, hp{"key accessors (Q.Bytes/CompressedBytes/Point, K.Bytes/Scalar, SPK.Bytes)", "Q.Verify(recoverable)"})
 	}
 	for _, p := range hps {
 		if R.Expired() {
